@@ -23,7 +23,7 @@ RULE = (
     "not millisecond-aligned. libFuzzer additionally drives digital_rf_get_subdir_file against an __int128 oracle."
 )
 ASSUMPTIONS = c01.ASSUMPTIONS[:2]
-FLOORS = {"nontrivial": 0.3}
+FLOORS = {"nontrivial": 0.3, "start-inexact-in-double": 0.03}
 RE_FILE = re.compile(r"^rf@(\d+)\.(\d{3})\.h5$")
 RE_DIR = re.compile(r"^(\d{4})-(\d{2})-(\d{2})T(\d{2})-(\d{2})-(\d{2})$")
 
@@ -115,6 +115,8 @@ def run_case(case):
     res.nontrivial = edge and nonms
     if nonms:
         res.cls("nonms")
+    if float(cfg["start"]) != cfg["start"]:
+        res.cls("start-inexact-in-double")
     if case["path"] == "c":
         res.cls("cpath")
     if len(m.file_windows()) > 1:
